@@ -2,7 +2,10 @@ package qnet
 
 import (
 	"context"
+	"errors"
+	"fmt"
 	"io"
+	"runtime/debug"
 	"sync"
 
 	"github.com/aperturerobotics/bifrost/crypto"
@@ -130,6 +133,18 @@ func (r *Recorder) Events() []LinkEvent {
 	return append([]LinkEvent(nil), r.events...)
 }
 
+var (
+	panicsMu sync.Mutex
+	panics   []string
+)
+
+// Panics returns the panics recovered from transports' Execute loops so far.
+func Panics() []string {
+	panicsMu.Lock()
+	defer panicsMu.Unlock()
+	return append([]string(nil), panics...)
+}
+
 // Node is one identity running the real transport on one packet conn.
 type Node struct {
 	Name    string
@@ -155,8 +170,19 @@ func NewNode(ctx context.Context, sw *Switch, name string, key *enum.Key, laddr 
 	}
 	n.Tpt = t
 	go func() {
+		defer close(n.Done)
+		defer func() {
+			// a panic in the transport's own accept/execute loop would take the
+			// process down; it is recorded so that the check can report it.
+			if r := recover(); r != nil {
+				msg := fmt.Sprintf("node %s: transport Execute panicked: %v\n%s", name, r, debug.Stack())
+				n.ExecErr = errors.New(msg)
+				panicsMu.Lock()
+				panics = append(panics, msg)
+				panicsMu.Unlock()
+			}
+		}()
 		n.ExecErr = t.Execute(nctx)
-		close(n.Done)
 	}()
 	return n, nil
 }
